@@ -63,8 +63,14 @@ class _TunnellingFeature:
             raise CouldNotParseKNXIP("TunnellingFeature header has invalid length")
         self.communication_channel_id = raw[1]
         self.sequence_counter = raw[2]
-        self.status_code = ErrorCode(raw[3])
-        self.feature_type = TunnellingFeatureType(raw[4])
+        try:
+            self.status_code = ErrorCode(raw[3])
+        except ValueError as err:
+            raise CouldNotParseKNXIP(f"unsupported status code: {raw[3]:#x}") from err
+        try:
+            self.feature_type = TunnellingFeatureType(raw[4])
+        except ValueError as err:
+            raise CouldNotParseKNXIP(f"unsupported feature type: {raw[4]:#x}") from err
         self.data = raw[6:]
         if self._has_data() and len(self.data) == 0:
             raise CouldNotParseKNXIP("TunnellingFeature missing data")
@@ -194,8 +200,14 @@ class TunnellingFeatureResponse(_TunnellingFeature, KNXIPBodyResponse):
             raise CouldNotParseKNXIP("TunnellingFeature header has invalid length")
         self.communication_channel_id = raw[1]
         self.sequence_counter = raw[2]
-        self.status_code = ErrorCode(raw[3])
-        self.feature_type = TunnellingFeatureType(raw[4])
+        try:
+            self.status_code = ErrorCode(raw[3])
+        except ValueError as err:
+            raise CouldNotParseKNXIP(f"unsupported status code: {raw[3]:#x}") from err
+        try:
+            self.feature_type = TunnellingFeatureType(raw[4])
+        except ValueError as err:
+            raise CouldNotParseKNXIP(f"unsupported feature type: {raw[4]:#x}") from err
         try:
             self.return_code = ReturnCode(raw[5])
         except ValueError:
